@@ -262,6 +262,9 @@ func (e *Exec) unsupported(format string, a ...interface{}) {
 
 // feasible asks whether pc ∧ c is satisfiable (unknown counts as feasible).
 func (e *Exec) check(c string) CheckResult {
+	if !e.deadline.IsZero() && time.Now().After(e.deadline) {
+		panic(pathEnd{"budget", "time budget exceeded"})
+	}
 	r, _ := e.sol.Check(c, nil)
 	return r
 }
@@ -535,7 +538,16 @@ func (e *Exec) obligation(c Bool, label, kind string) {
 			if i > 0 && k == e.sol.kind {
 				continue
 			}
-			r, model = oneShot(k, e.sol.log, neg, vars, e.timeoutMs*8)
+			// never beyond the instance's own time budget
+			left := int(time.Until(e.deadline) / time.Millisecond)
+			if left < e.timeoutMs {
+				break
+			}
+			tmo := e.timeoutMs * 8
+			if tmo > left {
+				tmo = left
+			}
+			r, model = oneShot(k, e.sol.log, neg, vars, tmo)
 			if r != RUnknown {
 				break
 			}
